@@ -51,12 +51,13 @@ def build_sim(spec, do_new=True):
     from FDApy.representation.argvals import DenseArgvals
     seed = spec.get("seed")
     kind = spec["kind"]
+    lo, hi = [float(v) for v in spec.get("domain", [0.0, 1.0])]     # the simulation grid spans [lo, hi]
     if kind == "kl":
         from FDApy.simulation.karhunen import KarhunenLoeve
         comps = spec["components"]
 
         def av(c):
-            return DenseArgvals({f"input_dim_{i}": np.linspace(0, 1, int(d[2])) for i, d in enumerate(c)})
+            return DenseArgvals({f"input_dim_{i}": np.linspace(lo, hi, int(d[2])) for i, d in enumerate(c)})
 
         def nm(c):
             return c[0][0] if len(c) == 1 else tuple(d[0] for d in c)
@@ -79,13 +80,13 @@ def build_sim(spec, do_new=True):
         from FDApy.simulation.brownian import Brownian
         sim = Brownian(spec["name"], random_state=seed)
         if do_new:
-            sim.new(n_obs=int(spec["n_obs"]), argvals=np.linspace(0, 1, int(spec["n_points"])), **spec.get("kwargs", {}))
+            sim.new(n_obs=int(spec["n_obs"]), argvals=np.linspace(lo, hi, int(spec["n_points"])), **spec.get("kwargs", {}))
         return sim
     if kind == "datasets":
         from FDApy.simulation.datasets import Datasets
         sim = Datasets(spec.get("name", "zhang_chen"), random_state=seed)
         if do_new:
-            sim.new(n_obs=int(spec["n_obs"]), argvals=np.linspace(0, 1, int(spec["n_points"])))
+            sim.new(n_obs=int(spec["n_obs"]), argvals=np.linspace(lo, hi, int(spec["n_points"])))
         return sim
     raise ValueError(kind)
 
@@ -130,6 +131,11 @@ def gen_specs(rng, quick):
         specs.append({"kind": "brownian", "name": name, "n_points": int(rng.integers(4, 9)), "n_obs": int(rng.integers(1, 4)),
                       "seed": seed()})
     specs.append({"kind": "datasets", "n_points": int(rng.integers(4, 8)), "n_obs": int(rng.integers(1, 4)), "seed": seed()})
+    # simulation grids that do not span [0, 1]: every third simulator
+    doms = [[2.0, 10.0], [-1.0, 1.0], [1.0, 365.0], [0.0, 0.5]]
+    for j, sp in enumerate(specs):
+        if j % 3 == 1:
+            sp["domain"] = doms[(j // 3) % len(doms)]
     return specs
 
 
